@@ -22,17 +22,17 @@ Definition is_repeat_min1 (o : op) : option (op * N) :=
   end.
 
 (* add_precondition / add_repeat_precondition; structural on the operation *)
-Fixpoint add_pre (o : op) (fp : option N) (mp : N) (acc : list precond) : list precond :=
+Fixpoint add_pre (multi : bool) (o : op) (fp : option N) (mp : N) (acc : list precond) : list precond :=
   match o with
   | OAtom _ | OCls _ => acc ++ [{| pc_op := o; pc_fixed := fp; pc_min := mp |}]
-  | OCapture _ c => add_pre c fp mp acc
+  | OCapture _ c => add_pre multi c fp mp acc
   | OSeq os =>
       (fix go (l : list op) (fp : option N) (mp : N) (acc : list precond) : list precond :=
          match l with
          | [] => acc
          | x :: t =>
-             let fp1 := match x with OBol => Some 0%N | _ => fp end in
-             let acc' := add_pre x fp1 mp acc in
+             let fp1 := match x with OBol => if multi then None else Some 0%N | _ => fp end in
+             let acc' := add_pre multi x fp1 mp acc in
              let fp2 := match fp1, match_length x with
                         | Some a, Some l => cadd a l
                         | _, _ => None
@@ -45,7 +45,7 @@ Fixpoint add_pre (o : op) (fp : option N) (mp : N) (acc : list precond) : list p
         | OAtom _ | OCls _ =>
             if N.eqb mn 1 then acc ++ [{| pc_op := o; pc_fixed := fp; pc_min := mp |}]
             else acc ++ [{| pc_op := ORepeat c mn mn true; pc_fixed := fp; pc_min := mp |}]
-        | _ => add_pre c fp mp acc
+        | _ => add_pre multi c fp mp acc
         end
       else acc
   | _ => acc
@@ -58,7 +58,7 @@ Definition mk_program (pattern : list N) (o : op) (maxparens : nat)
      p_case := case_i; p_multi := multi; p_literal := literal;
      p_prefix := match first with Some (OAtom a) => Some a | _ => None end;
      p_icc := match first with Some (OCls c) => Some c | _ => None end;
-     p_pre := match o with OSeq _ => add_pre o None 0%N [] | _ => [] end;
+     p_pre := match o with OSeq _ => add_pre multi o None 0%N [] | _ => [] end;
      p_minlen := min_length o;
      p_hasbol := match first with Some OBol => true | _ => false end;
      p_hasbackrefs := hasbackrefs;
